@@ -22,9 +22,12 @@ macro_rules! properties {
 
 properties! {
     "C01" => c01,
+    "C02" => c02,
     "C03" => c03,
+    "C06" => c06,
     "C08" => c08,
     "C11" => c11,
+    "C14" => c14,
     "C15" => c15,
     "C20" => c20,
 }
